@@ -51,6 +51,7 @@ def parseLabel (toks : List String) : Option Label :=
   | ["peRecTrip", p, b, e] => some (.peRecTrip (parseProc p) b.toNat! e.toNat!)
   | ["hSched", p, i, b, e, k] => some (.hSched (parseProc p) i.toNat! b.toNat! e.toNat! k.toNat!)
   | ["hStart", i] => some (.hStart i.toNat!)
+  | ["hCancel", i] => some (.hCancel i.toNat!)
   | ["hEnd", i, o] => (parseOut o).map fun o => .hEnd i.toNat! o
   | ["hFinish", i, r] => (parseFin r).map fun r => .hFinish i.toNat! r
   | ["walWrite", p, b, e, ok] => some (.walWrite (parseProc p) b.toNat! e.toNat! (ok == "1"))
@@ -88,7 +89,7 @@ def labelKind (l : Label) : String :=
   | .dispatch p _ _ r => s!"dispatch.{match p with | .inst _ => "handler" | _ => "ext"}.{(repr r).pretty.replace "Bubus.DRes." ""}"
   | .take p .. => s!"take.{match p with | .rl _ => "runloop" | _ => "inline"}"
   | .peBegin p .. => s!"peBegin.{match p with | .rl _ => "runloop" | _ => "inline"}"
-  | .peRecTrip .. => "peRecTrip" | .hSched .. => "hSched" | .hStart .. => "hStart"
+  | .peRecTrip .. => "peRecTrip" | .hSched .. => "hSched" | .hStart .. => "hStart" | .hCancel .. => "hCancel"
   | .hEnd _ o => s!"hEnd.{(repr o).pretty.replace "Bubus.Out." ""}"
   | .hFinish _ r => s!"hFinish.{(repr r).pretty.replace "Bubus.Fin." ""}"
   | .walWrite _ _ _ ok => s!"walWrite.{ok}" | .peEnd p .. => s!"peEnd.{match p with | .rl _ => "runloop" | _ => "inline"}"
@@ -343,10 +344,15 @@ partial def loop (h : IO.FS.Stream) (s : St) : IO Unit := do
       printVios (if s.diverged then s.sc ++ "~" else s.sc) s.line [⟨"C03", "awaitRaised", [], s!"awaiting event {e} from ordinary code raised {why}"⟩]
       loop h s
     | ["xAwaitHang", e] =>
-      printVios (if s.diverged then s.sc ++ "~" else s.sc) s.line [{ prop := "C03", clause := "hang", sigs := hangSigs s.w s.m e.toNat!, detail := s!"external await of event {e} never returns" }]
+      -- (an event abandoned because its bus was stopped / its run loop cancelled is the client's doing: exempt)
+      let sg := hangSigs s.w s.m e.toNat!
+      if !(sg.contains "stop-drop" || sg.contains "stopped-backlog") then
+        printVios (if s.diverged then s.sc ++ "~" else s.sc) s.line [{ prop := "C03", clause := "hang", sigs := sg, detail := s!"external await of event {e} never returns" }]
       loop h s
     | ["waitIdleHang", b] =>
-      printVios (if s.diverged then s.sc ++ "~" else s.sc) s.line [{ prop := "C15", clause := "hang", sigs := busHangSigs s.w s.m b.toNat!, detail := s!"wait_until_idle of bus {b} never returns" }]
+      let sg := busHangSigs s.w s.m b.toNat!
+      if !(sg.contains "stop-drop" || sg.contains "stopped-backlog") then
+        printVios (if s.diverged then s.sc ++ "~" else s.sc) s.line [{ prop := "C15", clause := "hang", sigs := sg, detail := s!"wait_until_idle of bus {b} never returns" }]
       loop h s
     | _ =>
       match parseLabel toks with
